@@ -388,6 +388,17 @@ def timer_programming(rep, fn, vals):
         pd = fn.pdom().get(bid, set()) - {bid}
         ok = s1 == s2 and zero[0][0] in arm_blocks(fn, bid, s1) and per[0][0] not in arm_blocks(fn, bid, s1) and \
             per[0][0] in arm_blocks(fn, bid, s0) and zero[0][0] not in fn.reach_from([s0], avoid=set(pd) | set(abt))
+    # an absolute expiration time is a point in time: it is never copied into the repeat interval
+    ok_abs = False
+    for bid, c, atom in r_mpt.branches_with(fn, lambda x, ps: x.get("k") == "bin" and x["op"] == "&" and OD in (const_val(x["x"]), const_val(x["y"])) and "flags" in key(x)):
+        s0, k0 = r_mpt.edge_for_value(fn, bid, c, atom, 0)
+        abt2 = [b2 for b2 in fn.reachable_blocks() if fn.blocks[b2].cond is not None and "fflags" in key(fn.blocks[b2].cond) and
+                any(const_val(y) == vals["TP_FF_T_ABSTIME"] for y, _ in walk(fn.blocks[b2].cond))]
+        pd2 = fn.pdom().get(bid, set()) - {bid}
+        if k0 and zero and abt2 and zero[0][0] in fn.reach_from([s0], avoid=pd2) and any(b2 in fn.reach_from([s0], avoid=pd2) for b2 in abt2):
+            ok_abs = True
+    (rep.proved if ok_abs else rep.violated)("R-MPT", fn, "abstime-has-no-interval", "an absolute expiration time is not used as repeat interval",
+                                             "" if ok_abs else "a persistent TP_FF_T_ABSTIME timer gets it_interval = the absolute time (a period of about 56 years after the first expiration)")
     (rep.proved if ok else rep.violated)("R-MPT", fn, "interval-iff-periodic",
                                          "the repeat interval is zero iff ONESHOT or DISPATCH is set (or the time is absolute), else equals the value")
     # ABSTIME agreement
@@ -648,7 +659,8 @@ def run(rep, tier):
     c06_audit.clock_rule(rep, fp, vals)
     rep.floor("read/write removal sites", c06_audit.rw_kind_rule(rep, fp, vals), 1)
     rep.floor("refusal obligations", c06_audit.refuse_rule(rep, u, vals, opt), 4)
-    rep.floor("closes of pool-created descriptors", c06_audit.close_after_del_rule(rep, u), 4)
+    rep.floor("closes of pool-created descriptors", c06_audit.close_after_del_rule(rep, u), 5)
+    rep.floor("tpdata marks and disabled stores", c06_audit.tpdata_bookkeeping_rule(rep, fp, fl_, vals), 3)
     rep.floor("thread stores in the add entry points", c06_audit.add_target_rule(rep, u), 3)
     return driver.finish(
         rep, "other",
